@@ -39,6 +39,7 @@ def main():
             seeds = sys.argv[i + 1].split(",")
         if a == "--src":
             src = sys.argv[i + 1]
+    race = ["-race"] if "--race" in sys.argv or pid == "C20" else []
     wt = "/tmp/seedeval-%s-%s-%d" % (pid, k, os.getpid())
     rc, out = sh(["git", "-C", "/repo", "worktree", "add", "--detach", wt, "HEAD", "-q"])
     if rc != 0:
@@ -58,7 +59,7 @@ def main():
         runre = "^(%s)$" % "|".join(names)
         pkg = "./" + pkgdir if pkgdir else "."
         shutil.copy(demo, dst)
-        rc_clean, out_clean = sh(["go", "test", "-vet=off", "-count=1", "-run", runre, pkg], cwd=wt)
+        rc_clean, out_clean = sh(["go", "test", "-vet=off", "-count=1"] + race + ["-run", runre, pkg], cwd=wt)
         os.unlink(dst)
         rc_ap, out_ap = sh(["git", "apply", os.path.join(src, "patch.diff")], cwd=wt)
         if rc_ap != 0:
@@ -68,7 +69,7 @@ def main():
             return
         rc_build, out_build = sh("go build ./... ", cwd=wt)
         shutil.copy(demo, dst)
-        rc_bug, out_bug = sh(["go", "test", "-vet=off", "-count=1", "-run", runre, pkg], cwd=wt)
+        rc_bug, out_bug = sh(["go", "test", "-vet=off", "-count=1"] + race + ["-run", runre, pkg], cwd=wt)
         os.unlink(dst)
         rc_suite, out_suite = sh("go test -vet=off -count=1 $(go list ./... | grep -v mod_test) 2>&1 | grep -c '^FAIL\\|^--- FAIL' ", cwd=wt)
         meta["demo"] = {"tests": names, "package": pkg, "clean_tree": "pass" if rc_clean == 0 else "FAIL",
